@@ -101,7 +101,25 @@ pub fn one_run(cfg: &Cfg, rc: &RunCfg, acc: &mut Acc) -> (Option<J>, u64, bool) 
     if rc.trace { sched::dump_trace(&rep) }
     if rep.inconclusive() { if acc.notes.len() < 10 { acc.notes.push(format!("inconclusive {:?}: {} {}", rep.outcome, cfg.json().to_string(), rc.strategy.describe())) } std::mem::forget(ch); return (None, rep.sched_hash, true) }
     let mut probs: Vec<(String, String)> = Vec::new();
-    for (t, p) in &rep.panics { probs.push(("panic".into(), format!("thread t{t} panicked: {p}"))) }
+    for (t, p) in &rep.panics {
+        // causal attribution of one specific panic: a sender that found a listener's queue full although the workload never sends more than N events --
+        // when that listener was handed some event TWICE and the duplicated event's send overlapped a listener drop (the unsynchronised rewrite of the
+        // live-listener list, C07-D8 / C17-D8), the overflow is that finding's consequence; any other panic stays a plain "panic"
+        let mut anomaly = "panic";
+        if cfg.kind.is_multi() && p.contains("is full of elements") {
+            let drops: Vec<(u64, u64)> = clogs.iter().filter_map(|l| *l.drop_span.lock().unwrap()).collect();
+            let named: Option<u32> = p.split("(#").nth(1).and_then(|r| r.split(')').next()).and_then(|d| d.parse().ok());
+            for l in clogs.iter() {
+                if named.map(|n| n != l.stream_id.load(SeqCst)).unwrap_or(false) { continue }
+                let ids = l.ids();
+                let dup: Vec<u64> = ids.iter().copied().filter(|i| ids.iter().filter(|j| *j == i).count() > 1).collect();
+                if !dup.is_empty() && dup.iter().all(|id| plogs.iter().any(|pl| pl.calls.lock().unwrap().iter().any(|c| c.0 == *id && c.3 && drops.iter().any(|d| c.1 < d.1 && d.0 < c.2)))) {
+                    anomaly = "sender_panicked_on_a_listener_queue_filled_by_a_duplicate_delivered_during_a_listener_drop";
+                }
+            }
+        }
+        probs.push((anomaly.into(), format!("thread t{t} panicked: {p}")))
+    }
     let t_ret = req_returned.load(SeqCst);
     if let Outcome::Stall { spinners, .. } = &rep.outcome {
         probs.push(("request_never_completes".into(), format!("the request did not complete: every runnable thread spins ({})", spinners.iter().map(|(t, s)| format!("t{t}@{}", sched::site_name(*s))).collect::<Vec<_>>().join(", "))));
